@@ -18,6 +18,9 @@ type genCtx struct {
 	c      *Case
 	nextID int
 	thor   bool
+	// pairNested: two nodes of the wide layer of the top graph run nested graphs (which can then
+	// be interrupted in the same step)
+	pairNested bool
 }
 
 // underLoop: the graph is run by a node inside a loop body (once per round): no loop of its
@@ -82,18 +85,23 @@ func (g *genCtx) graph(depth int, parentHasState bool, parentTy int, wide bool, 
 			if r.Chance(1, 3) {
 				n.DelayUs = r.Intn(300)
 			}
-			// malformed: a handler / ProcessState call written for the other state type
-			if state && n.Pre && r.Chance(1, 250) {
-				t := 1 - sty
-				n.PreTy = &t
+			// malformed: a handler / ProcessState call written for another state type: the other
+			// pointer type, or the declared type at another pointer depth (the struct type itself)
+			wrongTy := func(right int) *int {
+				t := 1 - right
+				if r.Chance(1, 2) {
+					t = 2 + right
+				}
+				return &t
 			}
-			if state && n.Post && r.Chance(1, 250) {
-				t := 1 - sty
-				n.PostTy = &t
+			if state && n.Pre && r.Chance(1, 170) {
+				n.PreTy = wrongTy(sty)
 			}
-			if visible && n.PS > 0 && r.Chance(1, 120) {
-				t := 1 - visTy
-				n.PSTy = &t
+			if state && n.Post && r.Chance(1, 170) {
+				n.PostTy = wrongTy(sty)
+			}
+			if visible && n.PS > 0 && r.Chance(1, 100) {
+				n.PSTy = wrongTy(visTy)
 			}
 			if l > 0 {
 				prev := layers[l-1]
@@ -161,12 +169,16 @@ func (g *genCtx) graph(depth int, parentHasState bool, parentTy int, wide bool, 
 	}
 	// nested graphs (a nested graph inside a loop body is executed once per round)
 	if depth < 2 && len(g.c.Forest) < 4 {
+		force := map[int]bool{}
+		if depth == 0 && g.pairNested && len(layers[wideLayer]) >= 2 {
+			force[layers[wideLayer][0]], force[layers[wideLayer][1]] = true, true
+		}
 		for i := range nodes {
 			p := 5
 			if inLoop[nodes[i].ID] {
 				p = 2
 			}
-			if len(g.c.Forest) < 4 && r.Chance(1, p) {
+			if len(g.c.Forest) < 4 && (force[nodes[i].ID] || r.Chance(1, p)) {
 				nodes[i].PS = 0
 				nodes[i].PSTy = nil
 				nodes[i].DelayUs = 0
@@ -192,6 +204,7 @@ func sortInts(a []int) {
 func (engine) Generate(r *lib.Rng, tier string, i int) any {
 	c := &Case{X0: int64(r.Intn(1000)), Runs: 1, Yield: r.U64() % 100000}
 	g := &genCtx{r: r, c: c, nextID: 1, thor: tier == "thorough"}
+	g.pairNested = r.Chance(1, 8)
 	g.graph(0, false, 0, true, false)
 	if r.Chance(2, 5) {
 		c.Runs = r.Range(2, 3)
@@ -257,8 +270,9 @@ func (engine) Generate(r *lib.Rng, tier string, i int) any {
 		var cands []IntSpec
 		for gi, gr := range c.Forest {
 			var late []int
+			first := gi > 0 && r.Chance(1, 2) // a nested graph may also be interrupted before its first layer
 			for _, n := range gr.Nodes {
-				if len(n.Preds) > 0 {
+				if (len(n.Preds) > 0) != first {
 					late = append(late, n.ID)
 				}
 			}
@@ -294,6 +308,71 @@ func (engine) Generate(r *lib.Rng, tier string, i int) any {
 		if len(cands) > 0 {
 			is := cands[r.Intn(len(cands))]
 			is.Modifier = r.Chance(1, 2)
+			// interrupt nodes in a sibling nested graph as well (two nested graphs of one enclosing graph
+			// interrupting at once: one checkpoint holds both). A third of the interrupted cases look
+			// for two nested graphs run by nodes of the same layer; otherwise most interrupts inside a
+			// nested graph take any sibling nested graph along.
+			encl := func(gi int) *NodeSpec {
+				for pi := range c.Forest {
+					for ni := range c.Forest[pi].Nodes {
+						if c.Forest[pi].Nodes[ni].Sub == gi {
+							return &c.Forest[pi].Nodes[ni]
+						}
+					}
+				}
+				return nil
+			}
+			sameLayer := func(a, b *NodeSpec) bool {
+				if a == nil || b == nil || len(a.Preds) != len(b.Preds) {
+					return false
+				}
+				for i := range a.Preds {
+					if a.Preds[i] != b.Preds[i] {
+						return false
+					}
+				}
+				return true
+			}
+			paired := false
+			if r.Chance(1, 3) || g.pairNested {
+				var pairs [][2]IntSpec
+				for _, a := range cands {
+					for _, b := range cands {
+						if a.Graph > 0 && b.Graph > a.Graph && c.parentOf(a.Graph) == c.parentOf(b.Graph) && sameLayer(encl(a.Graph), encl(b.Graph)) {
+							pairs = append(pairs, [2]IntSpec{a, b})
+						}
+					}
+				}
+				if len(pairs) > 0 {
+					pr := pairs[r.Intn(len(pairs))]
+					mod := is.Modifier
+					is = pr[0]
+					is.Modifier = mod
+					also := pr[1]
+					is.Also = &also
+					paired = true
+					// the enclosing nodes mostly carry a pre-handler (which must not run again after the resume)
+					if c.Forest[c.parentOf(is.Graph)].State {
+						for _, e := range []*NodeSpec{encl(is.Graph), encl(also.Graph)} {
+							if r.Chance(2, 3) {
+								e.Pre = true
+							}
+						}
+					}
+				}
+			}
+			if !paired && is.Graph > 0 && r.Chance(3, 4) {
+				var sib []IntSpec
+				for _, cand := range cands {
+					if cand.Graph > 0 && cand.Graph != is.Graph && c.parentOf(cand.Graph) == c.parentOf(is.Graph) {
+						sib = append(sib, cand)
+					}
+				}
+				if len(sib) > 0 {
+					also := sib[r.Intn(len(sib))]
+					is.Also = &also
+				}
+			}
 			c.Interrupt = &is
 			// most interrupted cases have one run; the others interrupt and resume every run
 			// (each under its own checkpoint id, sequentially or concurrently)
